@@ -509,6 +509,61 @@ func siteTable(c *core.Ctx, rule string, sites []site, rows []siteRow, floor int
 	c.Floor(rule+" sites", len(sites), floor)
 }
 
+// atomEstablished: some atom (a leaf of &&/||/! after decomposition of the recorded branch outcomes) selected by
+// pred was established true (1) or false (2) on the path; 0 when none was.
+func atomEstablished(st core.State, pred func(ast.Expr) bool) int8 {
+	var res int8
+	for k, fct := range st {
+		if k.Root != nil || !strings.HasPrefix(k.Path, "cond:") || fct.Def == nil || fct.Bool == 0 {
+			continue
+		}
+		var atoms []atomB
+		decompose(fct.Def, fct.Bool == 1, &atoms)
+		for _, a := range atoms {
+			// atoms only: a compound that could not be decomposed does not count
+			if be, ok := ast.Unparen(a.x).(*ast.BinaryExpr); ok && (be.Op.String() == "&&" || be.Op.String() == "||") {
+				continue
+			}
+			if !pred(a.x) {
+				continue
+			}
+			if a.val {
+				res = 1
+			} else if res == 0 {
+				res = 2
+			}
+		}
+	}
+	return res
+}
+
+// atomEqEstablished: for atoms `x == K` / `x != K` selected by pred: 1 = equality established, 2 = inequality.
+func atomEqEstablished(st core.State, pred func(ast.Expr) bool) int8 {
+	var res int8
+	for k, fct := range st {
+		if k.Root != nil || !strings.HasPrefix(k.Path, "cond:") || fct.Def == nil || fct.Bool == 0 {
+			continue
+		}
+		var atoms []atomB
+		decompose(fct.Def, fct.Bool == 1, &atoms)
+		for _, a := range atoms {
+			be, ok := ast.Unparen(a.x).(*ast.BinaryExpr)
+			if !ok || !pred(a.x) {
+				continue
+			}
+			switch {
+			case be.Op.String() == "==" && a.val, be.Op.String() == "!=" && !a.val:
+				res = 1
+			case be.Op.String() == "==" && !a.val, be.Op.String() == "!=" && a.val:
+				if res == 0 {
+					res = 2
+				}
+			}
+		}
+	}
+	return res
+}
+
 // derefLocal replaces an identifier that names a local with exactly one assignment (its := declaration) by the
 // defining expression, so that a hoisted sub-expression is seen through; anything else is returned unchanged.
 func derefLocal(f *core.FuncInfo, x ast.Expr) ast.Expr {
